@@ -70,7 +70,12 @@ ChalGroupCheck(s, keys, contrib, vg, pr, sp, entry) ==
              /\ Norm(clist[i].lbound) = NONE => Norm(clist[i].bound) = NONE
              /\ vg.deltas[i] = 0
         /\ anyContrib => (vg.pt = pr.pt /\ sp = pr.pre)
-      unknown == s = "ipa" /\ HasMut(pr, 0, "rounds") /\ entry = "batch"
+      \* IPA batch_check has no round-count guard.  Rounds removed from / appended to an HONEST
+      \* proof break the round-commitment equation of succinct_check (final key and c belong to the
+      \* full folding), so the model answers "reject" (pr.muts # {}).  A proof genuinely produced
+      \* with fewer rounds over a key prefix only exists for a polynomial of lower degree and then
+      \* proves a true claim; no "unknown" outcome is left for this shape.
+      unknown == FALSE
   IN [res |-> IF guard # "none" THEN guard
               ELSE IF unknown THEN "unknown"
               ELSE IF holds THEN "accept" ELSE "reject",
